@@ -23,12 +23,28 @@ Two further parts generalise *how* the list reaches the tag and *what happened b
   it in place between the renders (a value of an element, an element, append / pop / swap, a new
   container of the same elements, an unrelated render in between), or between two dtml-in tags of
   the same template; every render is judged against the model of the values at that moment.
+
+The options of the tag are a dimension of their own (they decide how the elements are read, ordered and
+displayed, never what is summarised):
+
+* option grid — every subset of {mapping, no_push_item, prefix=, skip_unauthorized, sort, reverse, batch}
+  crossed with the sort key (a variable whose statistics are asked / another key of the elements / several
+  keys), the direction spelling of the key (x, x/cmp, x/cmp/asc, x/cmp/desc, x/nocase or a comparison
+  function of the caller, .../desc), the way the reversal is asked for (reverse, reverse_expr true / false,
+  literal / by name, both) and the batch options; sort specifications come as sort=, sort_expr="'...'" or
+  sort_expr="name"; the attribute order is permuted; the loop may carry an else continuation.  The seeded
+  shapes, the histories and the nested loops draw from the same option space.
+* nested loops — an outer loop over one sequence and, on its last element, an inner loop over another one
+  with the same variable names (own options, own mapping flag): the statistics asked before, inside and after
+  the inner loop are those of the loop they are asked in.
 """
 import collections
 import hashlib
 import itertools
 import math
 import numbers
+import os
+import random
 import re
 from fractions import Fraction
 
@@ -56,7 +72,20 @@ RULE = ('exhaustive lists of length 1..4 (thorough 1..5) over {-2,0,1,3,0.5,2.5,
         'render going through the same compiled template, another one (other channel / mapping flag / first '
         'statistic / subset of the variables) or a newly compiled one; 20% of the renders use a template with '
         'two dtml-in tags over the sequence and the operation applied by a call between them; every render is '
-        'judged against the model of the values at that moment. A case is non-trivial when at least two values '
+        'judged against the model of the values at that moment. OPTIONS: the full grid of 16 subsets of {mapping, '
+        'no_push_item, prefix=, skip_unauthorized} x 11 sort specifications (none; the summarised variable spelt '
+        'x, x/cmp, x/cmp/asc, x/cmp/desc, x/<nocase for text | caller function for numbers>, .../desc; another '
+        'key of the elements plain and /cmp/desc; two or three keys with the first plain and /cmp/desc) x 6 '
+        'reversals (none, reverse, reverse_expr true, reverse_expr false, reverse_expr by name, reverse + '
+        'reverse_expr false) x 4 batch option sets = 4224 points, each rendered 3 times (thorough 14) with drawn '
+        'numeric / text data of 2..7 elements (1..2 variables), the first two renders over plain dict / attribute '
+        'elements; channel, emission point, container, tag form, prefix name, how the sort reaches the tag (sort=, '
+        'sort_expr literal, sort_expr by name), quoting and attribute order are drawn; the seeded shapes and 35% of '
+        'the history renders draw option subsets from the same space (histories sort on data variables only). '
+        'NESTED: 1600 (thorough 48000) pairs of an outer and an inner loop over two sequences with the same '
+        'variable names, each with its own drawn options, emitting outer / inner / outer or (half of them) inner / '
+        'outer, so that the outer statistics are first asked after the inner loop has run. '
+        'A case is non-trivial when at least two values '
         'of a variable are non-missing; distinct = distinct (variable names with their typed value lists, '
         'mapping, channel, rotation[, container and options | history prefix])')
 ASSUMPTIONS = [
@@ -78,7 +107,14 @@ ASSUMPTIONS = [
     'objects (by any template of the process) must not show through; what a statistic asked twice INSIDE one '
     'loop returns after the data changed during that loop is not asserted (changes are applied between tags)',
     'not generated (statement silent): sequences of (key, value) pairs, elements lacking the variable, '
-    'previous / next renders, sort on data holding the simulated Missing.Value',
+    'previous / next renders, sort on data holding the simulated Missing.Value, access through the prefix= '
+    'aliases (only the documented statistic-name spelling is read), the locale comparison functions',
+    'the options mapping / no_push_item / prefix= / skip_unauthorized / sort / sort_expr / reverse / reverse_expr '
+    '/ batch options / else continuation in any combination and attribute order leave the expected statistics '
+    'unchanged: mapping says how the elements are read (dict elements are read by key, other elements by '
+    'attribute), the others order, select for display or name things; sort specifications follow the "sort" '
+    'paragraph of the DT_In docstring (nocase only on text keys; a caller supplied three-way comparison is looked '
+    'up by name); inside nested loops a statistic belongs to the innermost loop running when it is asked',
     'the wrappers on sequence_variables.statistics / the dispatch table and the reach anchors are diagnosis '
     '(coverage.internals_diagnosis); the verdict and inconclusive rest on the compared outputs only',
 ]
@@ -88,6 +124,7 @@ SEEDED = {'quick': 5000, 'thorough': 200000}
 EXH_LEN = {'quick': 4, 'thorough': 5}
 SHAPES = {'quick': 4000, 'thorough': 120000}
 HISTORIES = {'quick': 800, 'thorough': 30000}
+NESTED = {'quick': 1600, 'thorough': 48000}
 EXH_HIST_LEN = {'quick': 2, 'thorough': 3}
 
 STATS = ('total', 'count', 'min', 'max', 'median', 'mean', 'variance', 'variance-n',
@@ -398,9 +435,13 @@ def classify_exception(exc, m):
 
 # ---------------------------------------------------------------- harness
 GAP = '\x1d'
+ELSE_TEXT = 'the sequence is empty'
 BATCH_KEYS = ('size', 'start', 'end', 'orphan', 'overlap')
 DEFAULT_OPTS = {'where': 'end', 'batch': None, 'batch_names': False, 'order': '', 'form': 'name',
-                'layout': 'interleaved', 'items': None}
+                'layout': 'interleaved', 'items': None,
+                # the option dimension: every subset may be combined
+                'sort': None, 'reverse': False, 'reverse_expr': None, 'no_push_item': False,
+                'prefix': None, 'skip_unauthorized': False, 'shuffle': None, 'extra': None, 'else': False}
 WHERES = ('end', 'start', 'every')
 ORDERS = ('', 'reverse', 'sort', 'reverse_expr', 'sort_expr')
 FORMS = ('name', 'expr', 'expr=')
@@ -411,11 +452,181 @@ HIST_CONTAINERS = ('list', 'list', 'list', 'tuple', 'deque', 'seqclass', 'dictva
 HIST_OPS = ('none', 'set', 'replace', 'append', 'pop', 'swap', 'rebuild', 'other')
 STRUCTURAL = ('replace', 'append', 'pop', 'swap')
 
+# ---- sort specifications (DT_In docstring, "sort"): comma separated options, each
+# "variable[/function[/order]]"; functions cmp, nocase (strings) or a name looked up in the namespace
+# (here: mycmp, an ordinary three-way comparison handed in by the caller); orders asc, desc.
+SORT_VIAS = ('attr', 'expr-lit', 'expr-name')
+SORT_SPELLINGS_NUM = ((None, None), ('cmp', None), ('cmp', 'asc'), ('cmp', 'desc'), ('mycmp', None),
+                      ('mycmp', 'desc'))
+SORT_SPELLINGS_STR = SORT_SPELLINGS_NUM + (('nocase', None), ('nocase', 'desc'), ('nocase', 'asc'))
+SORT_RELATIONS = ('stat', 'other', 'multi')
+EXTRA_KEYS = (('rank', 'num'), ('tag', 'str'))       # keys of the elements no statistic is asked for
+TAGS = ('a', 'B', 'c', 'D', 'e', 'F', 'g', 'H')
+PREFIXES = ('p', 'seq', 'row')
+# (reverse flag, reverse_expr): reverse_expr is [how, truth] with how in {'lit', 'name'}
+REVERSALS = ((False, None), (True, None), (False, ['lit', 1]), (False, ['lit', 0]), (False, ['name', 1]),
+             (False, ['name', 0]), (True, ['lit', 0]), (True, ['name', 1]))
+FLAG_NAMES = ('mapping', 'no_push_item', 'prefix', 'skip_unauthorized', 'sort', 'reverse', 'batch')
+
+
+def mycmp(a, b):
+    return (a > b) - (a < b)
+
 
 def full_opts(opts):
     o = dict(DEFAULT_OPTS)
     o.update(opts or {})
     return o
+
+
+def spell_key(k):
+    var, func, direction = k
+    return var + ('/' + func if func else '') + ('/' + direction if func and direction else '')
+
+
+def spell_sort(spec):
+    return ','.join(spell_key(k) for k in spec['keys'])
+
+
+def spelling_label(k):
+    return 'x' + spell_key(['', k[1], k[2]])
+
+
+def reversal_label(o):
+    r = o['reverse_expr']
+    if o['order'] == 'reverse':
+        return 'reverse'
+    if o['order'] == 'reverse_expr':
+        return 'reverse_expr true (literal)'
+    parts = []
+    if o['reverse']:
+        parts.append('reverse')
+    if r:
+        parts.append('reverse_expr %s (%s)' % ('true' if r[1] else 'false', 'literal' if r[0] == 'lit' else 'by name'))
+    return ' + '.join(parts) or 'none'
+
+
+def is_reversed(o):
+    """What the documentation says: reverse reverses; reverse_expr reverses when it evaluates true."""
+    if o['order'] in ('reverse', 'reverse_expr'):
+        return True
+    r = o['reverse_expr']
+    return bool(o['reverse'] or (r and r[1]))
+
+
+def sort_relation(o, names):
+    """none | stat (a variable whose statistics are asked) | other | multi (several keys)."""
+    if o['order'] in ('sort', 'sort_expr'):
+        return 'stat'
+    s = o['sort']
+    if not s:
+        return 'none'
+    if len(s['keys']) > 1:
+        return 'multi'
+    return 'stat' if s['keys'][0][0] in names else 'other'
+
+
+def order_label(o):
+    """The classes of the former 'order' option, kept as a coverage table."""
+    if o['order']:
+        return o['order']
+    s = o['sort']
+    if s:
+        return 'sort' if s['via'] == 'attr' else 'sort_expr'
+    if o['reverse']:
+        return 'reverse'
+    if o['reverse_expr']:
+        return 'reverse_expr'
+    return 'plain'
+
+
+def flag_set(o, mapping):
+    on = {'mapping': mapping, 'no_push_item': o['no_push_item'], 'prefix': o['prefix'],
+          'skip_unauthorized': o['skip_unauthorized'], 'sort': o['sort'] or o['order'] in ('sort', 'sort_expr'),
+          'reverse': o['reverse'] or o['reverse_expr'] or o['order'] in ('reverse', 'reverse_expr'),
+          'batch': o['batch']}
+    return '+'.join(f for f in FLAG_NAMES if on[f]) or '(none)'
+
+
+def render_kw(o):
+    """What the caller hands to the template besides the sequence, as the options require."""
+    kw = {}
+    if o['batch'] and o['batch_names']:
+        kw.update(('b_' + k, v) for k, v in o['batch'].items())
+    s = o['sort']
+    if s:
+        if s['via'] == 'expr-name':
+            kw['sk'] = spell_sort(s)
+        if any(k[1] == 'mycmp' for k in s['keys']):
+            kw['mycmp'] = mycmp
+    r = o['reverse_expr']
+    if r and r[0] == 'name':
+        kw['rv'] = bool(r[1])
+    return kw
+
+
+def tag_head(mapping, names, o, seqname='seq'):
+    """<dtml-in ...> with every option of o; the sequence reference comes first, the options follow
+    in the fixed order below or, with o['shuffle'], in a permutation of it."""
+    ref = {'name': '%s', 'expr': '"%s"', 'expr=': 'expr="%s"'}[o['form']] % seqname
+    attrs = []
+    if mapping:
+        attrs.append('mapping')
+    for k in BATCH_KEYS:
+        if o['batch'] and k in o['batch']:
+            attrs.append('%s=%s' % (k, 'b_' + k if o['batch_names'] else o['batch'][k]))
+    legacy = {'': None, 'reverse': 'reverse', 'sort': 'sort=%s' % names[0],
+              'reverse_expr': 'reverse_expr="1"', 'sort_expr': 'sort_expr="\'%s\'"' % names[0]}[o['order']]
+    if legacy:
+        attrs.append(legacy)
+    s = o['sort']
+    if s:
+        text = spell_sort(s)
+        if s['via'] == 'attr':
+            attrs.append(('sort="%s"' if s.get('quoted') else 'sort=%s') % text)
+        elif s['via'] == 'expr-lit':
+            attrs.append('sort_expr="\'%s\'"' % text)
+        else:
+            attrs.append('sort_expr="sk"')
+    if o['reverse']:
+        attrs.append('reverse')
+    r = o['reverse_expr']
+    if r:
+        attrs.append('reverse_expr="%s"' % ('rv' if r[0] == 'name' else ('1' if r[1] else '0')))
+    if o['no_push_item']:
+        attrs.append('no_push_item')
+    if o['prefix']:
+        attrs.append('prefix=%s' % o['prefix'])
+    if o['skip_unauthorized']:
+        attrs.append('skip_unauthorized')
+    if o['shuffle'] is not None:
+        random.Random(o['shuffle']).shuffle(attrs)
+    return '<dtml-in %s%s>' % (ref, ''.join(' ' + a for a in attrs))
+
+
+def loop_end(o):
+    """The end of the loop, with or without the else continuation (shown for an empty sequence only)."""
+    return ('<dtml-else>' + ELSE_TEXT if o['else'] else '') + '</dtml-in>'
+
+
+def stat_body(channel, slots):
+    if channel == 'var':
+        return MARK + SEP.join('<dtml-var %s-%s>' % (s, nm) for s, nm in slots) + MARK
+    return ''.join('<dtml-call "rec((\'%s\', \'%s\'), _[\'%s-%s\'])">' % (s, nm, s, nm) for s, nm in slots)
+
+
+def nested_source(channel, rot, names, map_a, o_a, map_b, o_b, pre=True):
+    """An outer loop over seq whose last element emits the statistics (pre), then runs an inner loop over
+    seq2 (same variable names, its own options) that emits them on its last element, then emits them
+    once more: [outer,] inner, outer.  Without pre the outer loop asks for its statistics for the first
+    time after the inner loop has come and gone."""
+    order = STATS[rot:] + STATS[:rot]
+    slots = [(s, nm) for s in order for nm in names]
+    body = stat_body(channel, slots)
+    inner = (tag_head(map_b, names, o_b, 'seq2') + '<dtml-if sequence-end>' + body + '</dtml-if>'
+             + loop_end(o_b))
+    return (tag_head(map_a, names, o_a) + '<dtml-if sequence-end>' + (body if pre else '') + inner + body
+            + '</dtml-if>' + loop_end(o_a)), slots
 
 
 def source(channel, mapping, rot, names, opts=None, loops=1):
@@ -427,21 +638,10 @@ def source(channel, mapping, rot, names, opts=None, loops=1):
         slots = [(s, nm) for nm in names for s in order]
     else:
         slots = [(s, nm) for s in order for nm in names]
-    ref = {'name': 'seq', 'expr': '"seq"', 'expr=': 'expr="seq"'}[o['form']]
-    attrs = ' mapping' if mapping else ''
-    for k in BATCH_KEYS:
-        if o['batch'] and k in o['batch']:
-            attrs += ' %s=%s' % (k, 'b_' + k if o['batch_names'] else o['batch'][k])
-    attrs += {'': '', 'reverse': ' reverse', 'sort': ' sort=%s' % names[0],
-              'reverse_expr': ' reverse_expr="1"', 'sort_expr': ' sort_expr="\'%s\'"' % names[0]}[o['order']]
     guard = {'end': 'sequence-end', 'start': 'sequence-start', 'every': None}[o['where']]
-    head = '<dtml-in %s%s>' % (ref, attrs) + ('<dtml-if %s>' % guard if guard else '')
-    if channel == 'var':
-        body = MARK + SEP.join('<dtml-var %s-%s>' % (s, nm) for s, nm in slots) + MARK
-    else:
-        body = ''.join('<dtml-call "rec((\'%s\', \'%s\'), _[\'%s-%s\'])">' % (s, nm, s, nm)
-                       for s, nm in slots)
-    loop = head + body + ('</dtml-if>' if guard else '') + '</dtml-in>'
+    head = tag_head(mapping, names, o) + ('<dtml-if %s>' % guard if guard else '')
+    body = stat_body(channel, slots)
+    loop = head + body + ('</dtml-if>' if guard else '') + loop_end(o)
     if loops == 2:
         return loop + GAP + '<dtml-call "mut()">' + loop, slots
     return loop, slots
@@ -501,9 +701,11 @@ def set_value(kind, item, name, value):
         item[name] = value
 
 
-def make_items(variables, kind):
+def make_items(variables, kind, extra=None):
+    """extra: {key: values} — further keys / attributes of the elements (sort keys no statistic is asked for)."""
     length = len(variables[0][1])
-    return [new_item(kind, {nm: vals[i] for nm, vals in variables}) for i in range(length)]
+    cols = list(variables) + sorted((extra or {}).items())
+    return [new_item(kind, {nm: vals[i] for nm, vals in cols}) for i in range(length)]
 
 
 def make_container(kind, items):
@@ -586,18 +788,22 @@ class Env:
         self.ctx.count('dispatch:table entries wrapped', n)
 
     def template(self, channel, mapping, rot, names, opts=None, loops=1, fresh=False):
-        if opts is None and loops == 1:
-            k = (channel, mapping, rot, names)
-        else:
-            o = full_opts(opts)
-            k = (channel, mapping, rot, names, loops, o['where'], o['batch_names'], o['order'], o['form'],
-                 o['layout'], tuple(sorted((o['batch'] or {}).items())))
+        src, slots = source(channel, mapping, rot, names, opts, loops)
+        k = src                 # one compiled template per distinct source text
         t = None if fresh else self.cache.get(k)
         if t is None:
-            src, slots = source(channel, mapping, rot, names, opts, loops)
             t = (self.HTML(src), slots)
             if len(self.cache) < 4000:
                 self.cache[k] = t
+            self.ctx.count('templates compiled')
+        return t
+
+    def compile(self, src):
+        t = self.cache.get(('raw', src))
+        if t is None:
+            t = self.HTML(src)
+            if len(self.cache) < 4000:
+                self.cache[('raw', src)] = t
             self.ctx.count('templates compiled')
         return t
 
@@ -670,6 +876,36 @@ def dispatch_tables(ctx, env):
     ctx.count('dispatch:statistics() calls', len(env.calls))
 
 
+def option_tables(ctx, o, mapping, names, kind, part):
+    """Coverage of the option dimension (which subsets / sort keys / spellings / reversals were compared)."""
+    rel = sort_relation(o, names)
+    rev = reversal_label(o)
+    ctx.table('option subset', flag_set(o, mapping))
+    ctx.table('option subset x element type', '%s | %s' % (flag_set(o, mapping), kind))
+    ctx.table('option reversal', rev)
+    ctx.table('option sort key', rel)
+    ctx.table('option part', part)
+    if rel != 'none':
+        s = o['sort']
+        keys = s['keys'] if s else [[names[0], None, None]]
+        via = s['via'] if s else ('attr' if o['order'] == 'sort' else 'expr-lit')
+        ctx.table('option sort given through', via)
+        for k in keys:
+            ctx.table('option sort spelling', spelling_label(k))
+        first = keys[0]
+        ctx.table('option sort key x spelling x reversal',
+                  '%s | %s | %s' % (rel, spelling_label(first), 'reversed' if is_reversed(o) else 'not reversed'))
+        ctx.table('option sort key x reversal kind', '%s | %s' % (rel, rev))
+        if rel == 'multi':
+            ctx.table('option multi-key sort', ' , '.join('stat' if k[0] in names else 'other' for k in keys))
+    if o['prefix']:
+        ctx.table('option prefix', o['prefix'])
+    if o['shuffle'] is not None:
+        ctx.count('option:attribute order permuted')
+    if o['else']:
+        ctx.count('option:loop with an else continuation')
+
+
 def judge_blocks(ctx, case, desc, blocks, variables, models, channel, mapping, label=''):
     """Every emitted block against the model of every variable; True when all of them agree."""
     clean = True
@@ -722,11 +958,9 @@ def evaluate(ctx, env, variables, mapping, channel, rot, container='list', origi
     tmpl, slots = env.template(channel, mapping, rot, names, opts)
     length = len(variables[0][1])
     kind = o['items'] or ('dict' if mapping else 'item')
-    seq = make_container(container, make_items(variables, kind))
+    seq = make_container(container, make_items(variables, kind, o['extra']))
     uses_mv = any(v is MISSING for _, vals in variables for v in vals)
-    kw = {}
-    if o['batch'] and o['batch_names']:
-        kw = {'b_' + k: v for k, v in o['batch'].items()}
+    kw = render_kw(o)
     try:
         groups = env.render(tmpl, slots, channel, seq, uses_mv, kw)
     except Unparseable as e:
@@ -754,7 +988,8 @@ def evaluate(ctx, env, variables, mapping, channel, rot, container='list', origi
         ctx.count('shape:renders compared')
         ctx.table('shape container', container)
         ctx.table('shape where', o['where'])
-        ctx.table('shape order', o['order'] or 'plain')
+        ctx.table('shape order', order_label(o))
+        option_tables(ctx, o, mapping, names, kind, origin)
         ctx.table('shape form', o['form'])
         ctx.table('shape layout x variables', '%s/%d' % (o['layout'], len(variables)))
         ctx.table('shape items', kind)
@@ -776,10 +1011,9 @@ def evaluate(ctx, env, variables, mapping, channel, rot, container='list', origi
             ctx.count('data:lists containing missing values')
     label = ''
     if shape:
-        label = ', %s of %s elements, <dtml-in %s%s%s>, statistics emitted on %s' % (
-            container, kind, o['form'],
-            ''.join(' %s=%s' % (k, o['batch'][k]) for k in BATCH_KEYS if o['batch'] and k in o['batch']),
-            ' ' + o['order'] if o['order'] else '',
+        label = ', %s of %s elements, %s%s, statistics emitted on %s' % (
+            container, kind, tag_head(mapping, names, o),
+            ' called with %r' % ({k: v for k, v in kw.items() if k != 'mycmp'},) if kw else '',
             {'end': 'the last displayed element', 'start': 'the first displayed element',
              'every': 'every element'}[o['where']])
     clean = judge_blocks(ctx, case, desc, blocks, variables, models, channel, mapping, label)
@@ -925,6 +1159,9 @@ class History:
             label = ', step %d of a history on one %s object (operations so far: %s)' % (
                 k + 1, h['container'], ' '.join(s['op'][0] + ('+inline-' + s['inline'][0] if s.get('inline') else '')
                                                 for s in h['steps'][:k + 1]))
+            o = full_opts(opts)
+            if opts:
+                label += ', tag %s' % tag_head(mapping, ask, o)
             before = [(nm, list(self.cur[nm])) for nm in ask]
             models = {nm: model(vals) for nm, vals in before}
             ctx.case(desc, any(m['n'] >= 2 for m in models.values()))
@@ -932,7 +1169,7 @@ class History:
                                        fresh=step.get('fresh', False))
             mut = (lambda: self.apply(inline)) if inline else None
             try:
-                groups = env.render(tmpl, slots, channel, self.box.seq, self.uses_mv, None, mut)
+                groups = env.render(tmpl, slots, channel, self.box.seq, self.uses_mv, render_kw(o), mut)
             except Unparseable as e:
                 ctx.violation('unparseable output / record: %s%s' % (e, label), case, key='parse_' + digest(desc))
                 return
@@ -946,6 +1183,10 @@ class History:
             ctx.table('history items', h['itemkind'])
             ctx.table('history mode', '%s/%s' % (channel, 'mapping' if mapping else 'attributes'))
             ctx.table('first-accessed statistic', slots[0][0])
+            if opts:
+                option_tables(ctx, o, mapping, ask, h['itemkind'], 'history')
+                if k and (o['sort'] or o['reverse'] or o['reverse_expr']):
+                    ctx.count('history:renders with sort / reverse options after the first one')
             if changed:
                 ctx.count('history:renders after an in-place change')
             if k and not step.get('fresh'):
@@ -999,12 +1240,15 @@ def gen_history(rng):
     nvars = 1 if rng.random() < 0.7 else 2
     names = rng.sample(NAMES, nvars)
     n = rng.randint(1, 8)
-    pools, values = {}, []
+    pools, values, stat_vars = {}, [], []
     for nm in names:
         kind, vals = gen_list(rng, n)
         _, more = gen_list(rng, 10, kind)
         pools[nm] = enc(more)
         values.append([nm, enc(vals)])
+        stat_vars.append((nm, 'str' if kind in ('str', 'numstr') else 'num'))
+    if "{'mv': 1}" in repr((values, pools)):
+        stat_vars = []          # no ordering is documented for Missing.Value: such histories are not sorted
     itemkind = rng.choice(['dict', 'item', 'both'])
     container = rng.choice(HIST_CONTAINERS)
     modes = hist_modes(itemkind)
@@ -1044,16 +1288,27 @@ def gen_history(rng):
                 # a tuple cannot change under the running template; the application would have to
                 # rebind the name, which is the next render of the history, not this one
                 step['inline'] = ['set', rng.randrange(10), names[0], rng.choice(pools[names[0]])]
-        if rng.random() < 0.15:
+        r = rng.random()
+        if r < 0.15:
             step['opts'] = {'where': 'start', 'order': rng.choice(['', 'reverse'])}
+        elif r < 0.5:
+            # an option subset; the sort keys are data variables of the elements (asked for or not)
+            o = gen_options(rng, None, 0.5, others=(), stat_vars=stat_vars)
+            o['where'] = rng.choice(('start', 'end'))
+            if rng.random() < 0.3:
+                o['batch'] = gen_batch(rng, n)
+            step['opts'] = o
         steps.append(step)
     return {'names': names, 'values': values, 'itemkind': itemkind, 'container': container, 'steps': steps}
 
 
-# ---------------------------------------------------------------- shapes
-def gen_batch(rng, n):
-    keys = rng.choice([('size',), ('size',), ('start',), ('end',), ('size', 'start'), ('size', 'start'),
-                       ('start', 'end'), ('size', 'end'), ('size', 'start', 'end')])
+# ---------------------------------------------------------------- shapes and options
+BATCH_KEYSETS = (('size',), ('size',), ('start',), ('end',), ('size', 'start'), ('size', 'start'),
+                 ('start', 'end'), ('size', 'end'), ('size', 'start', 'end'))
+
+
+def gen_batch(rng, n, keys=None):
+    keys = keys or rng.choice(BATCH_KEYSETS)
     b = {}
     for k in keys:
         b[k] = rng.randint(1, n + 1) if k == 'size' else rng.randint(1, n + 2)
@@ -1064,7 +1319,88 @@ def gen_batch(rng, n):
     return b
 
 
-def gen_shape(rng, mapping, n, uses_mv):
+def sortable(variables):
+    """[(name, 'num'|'str')] — the data variables a sort may name (no ordering is documented for the
+    simulated Missing.Value, so a variable holding it is left out)."""
+    out = []
+    for nm, vals in variables:
+        if any(v is MISSING for v in vals):
+            continue
+        out.append((nm, 'str' if any(type(v) is str for v in vals) else 'num'))
+    return out
+
+
+def gen_extra(rng, n):
+    """Two further keys of every element: rank (ints, with ties now and then) and tag (mixed-case text)."""
+    rank = list(range(n))
+    rng.shuffle(rank)
+    if n > 1 and rng.random() < 0.3:
+        rank[rng.randrange(n)] = rank[rng.randrange(n)]
+    return {'rank': rank, 'tag': [rng.choice(TAGS) for _ in range(n)]}
+
+
+def gen_key(rng, var, kind, spelling=None):
+    if spelling is None:
+        spelling = rng.choice(SORT_SPELLINGS_STR if kind == 'str' else SORT_SPELLINGS_NUM)
+    func, direction = spelling
+    if func == 'alt':                   # the second comparison function that fits the data
+        func = 'nocase' if kind == 'str' else 'mycmp'
+    return [var, func, direction]
+
+
+def gen_sort(rng, stat_vars, relation=None, spelling=None, via=None, others=EXTRA_KEYS):
+    """A sort specification; None when the relation asked for cannot be built from these variables.
+
+    relation: stat — one key, a variable whose statistics are asked; other — one key, none of them;
+    multi — two or three keys, any mix (first key stat or other)."""
+    relation = relation or rng.choice(SORT_RELATIONS)
+    if relation in ('stat', 'multi') and not stat_vars:
+        return None
+    if relation == 'other' and not others:
+        return None
+    if relation == 'multi' and len(stat_vars) + len(others) < 2:
+        return None
+    if relation == 'stat':
+        var, kind = rng.choice(stat_vars)
+        keys = [gen_key(rng, var, kind, spelling)]
+    elif relation == 'other':
+        var, kind = rng.choice(others)
+        keys = [gen_key(rng, var, kind, spelling)]
+    else:
+        pool = list(stat_vars) + list(others)
+        first = rng.choice(stat_vars)       # at least one of the keys is a summarised variable
+        rest = [p for p in pool if p != first]
+        chosen = [first] + rng.sample(rest, min(len(rest), rng.randint(1, 2)))
+        rng.shuffle(chosen)
+        keys = [gen_key(rng, chosen[0][0], chosen[0][1], spelling)]
+        keys += [gen_key(rng, v, k) for v, k in chosen[1:]]
+    return {'keys': keys, 'via': via or rng.choice(SORT_VIAS), 'quoted': rng.random() < 0.5}
+
+
+def gen_options(rng, variables, p=0.5, others=EXTRA_KEYS, stat_vars=None):
+    """A random subset of the options that do not select what is summarised."""
+    o = {}
+    if rng.random() < p:
+        sp = gen_sort(rng, sortable(variables) if stat_vars is None else stat_vars, others=others)
+        if sp:
+            o['sort'] = sp
+    if rng.random() < p:
+        o['reverse'], o['reverse_expr'] = rng.choice(REVERSALS[1:])
+    if rng.random() < p * 0.6:
+        o['no_push_item'] = True
+    if rng.random() < p * 0.6:
+        o['prefix'] = rng.choice(PREFIXES)
+    if rng.random() < p * 0.4:
+        o['skip_unauthorized'] = True
+    if rng.random() < 0.5:
+        o['shuffle'] = rng.randrange(1000)
+    if rng.random() < 0.15:
+        o['else'] = True
+    return o
+
+
+def gen_shape(rng, mapping, variables):
+    n = len(variables[0][1])
     container = rng.choice(LAZY) if rng.random() < 0.7 else rng.choice(DIRECT)
     hashable = container in ('set', 'frozenset')
     if rng.random() < 0.25:
@@ -1076,19 +1412,205 @@ def gen_shape(rng, mapping, n, uses_mv):
     opts = {'where': rng.choice(WHERES), 'items': items,
             'batch': gen_batch(rng, n) if rng.random() < 0.65 else None,
             'batch_names': rng.random() < 0.3,
-            'order': rng.choice(ORDERS) if rng.random() < 0.4 else '',
             'form': rng.choice(FORMS) if rng.random() < 0.3 else 'name',
-            'layout': rng.choice(['interleaved', 'grouped'])}
-    if uses_mv and opts['order'] in ('sort', 'sort_expr'):
-        opts['order'] = 'reverse'       # no ordering is documented for Missing.Value
+            'layout': rng.choice(['interleaved', 'grouped']),
+            'extra': gen_extra(rng, n)}
+    opts.update(gen_options(rng, variables, 0.45))
     return container, opts
 
 
 def shape_case(ctx, env, rng, variables):
-    uses_mv = any(v is MISSING for _, vals in variables for v in vals)
     channel, mapping = rng.choice(MODES)
-    container, opts = gen_shape(rng, mapping, len(variables[0][1]), uses_mv)
+    container, opts = gen_shape(rng, mapping, variables)
     evaluate(ctx, env, variables, mapping, channel, rng.randrange(10), container, 'shape', opts)
+
+
+# ---- the option grid: every subset of {mapping, no_push_item, prefix, skip_unauthorized, sort, reverse,
+# batch} with every sort key relation / direction spelling and every way of asking for the reversal
+GRID_SORTS = ((None, None),
+              ('stat', (None, None)), ('stat', ('cmp', None)), ('stat', ('cmp', 'asc')),
+              ('stat', ('cmp', 'desc')), ('stat', ('alt', None)), ('stat', ('alt', 'desc')),
+              ('other', (None, None)), ('other', ('cmp', 'desc')),
+              ('multi', (None, None)), ('multi', ('cmp', 'desc')))
+GRID_REVERSALS = REVERSALS[:4] + REVERSALS[4:5] + REVERSALS[6:7]
+GRID_BATCHES = (None, ('size',), ('size', 'start'), ('start', 'end'))
+# per grid point: (data class of the first variable, plain element type?) - the first two renders use the
+# element type the mapping flag stands for (dict / attribute object), later ones also the mixed type
+OPTION_DATA = {'quick': (('num', True), ('str', True), ('any', False)),
+               'thorough': (('num', True), ('str', True)) + (('num', False), ('str', False), ('any', False)) * 4}
+GRID_KINDS = {'num': ['int', 'smallint', 'float', 'smallfloat', 'mix', 'dom-num'],
+              'str': ['str', 'numstr', 'dom-str']}
+
+
+def option_grid():
+    for flags in itertools.product((False, True), repeat=4):
+        for srt in GRID_SORTS:
+            for rev in GRID_REVERSALS:
+                for batch in GRID_BATCHES:
+                    yield flags, srt, rev, batch
+
+
+def count_option_grid():
+    return 16 * len(GRID_SORTS) * len(GRID_REVERSALS) * len(GRID_BATCHES)
+
+
+def grid_list(rng, kind, n):
+    if kind.startswith('dom-'):
+        dom = DOM_NUM if kind == 'dom-num' else rng.choice((DOM_STR, DOM_STR2))
+        return [rng.choice(dom) for _ in range(n)]
+    return gen_list(rng, n, kind)[1]
+
+
+def option_case(ctx, env, rng, point, data, plain=True):
+    """One render of one grid point: the systematic dimensions come from the point, data and the
+    remaining presentation (channel, emission point, container, element type, names, ...) are drawn."""
+    (mapping, npi, prefix, skip), (relation, spelling), (reverse, reverse_expr), batch_keys = point
+    if data == 'any':
+        data = rng.choice(('num', 'str'))
+    n = rng.randint(2, 7)
+    nvars = 1 if rng.random() < 0.6 else 2
+    names = rng.sample(NAMES, nvars)
+    variables = []
+    for j, nm in enumerate(names):
+        kind = rng.choice(GRID_KINDS[data if j == 0 else rng.choice(('num', 'str'))])
+        vals = grid_list(rng, kind, n)
+        if any(v is MISSING for v in vals):
+            vals = [None if v is MISSING else v for v in vals]
+        variables.append((nm, vals))
+    opts = {'where': rng.choice(WHERES),
+            'items': 'both' if not plain and rng.random() < 0.4 else ('dict' if mapping else 'item'),
+            'batch': gen_batch(rng, n, batch_keys) if batch_keys else None,
+            'batch_names': bool(batch_keys) and rng.random() < 0.3,
+            'form': rng.choice(FORMS) if rng.random() < 0.3 else 'name',
+            'layout': rng.choice(['interleaved', 'grouped']),
+            'extra': gen_extra(rng, n),
+            'reverse': reverse, 'reverse_expr': reverse_expr, 'no_push_item': npi,
+            'prefix': rng.choice(PREFIXES) if prefix else None, 'skip_unauthorized': skip,
+            'shuffle': rng.randrange(1000) if rng.random() < 0.5 else None}
+    if relation:
+        # the first variable is the one of the requested data class; a 'stat' key names it
+        opts['sort'] = gen_sort(rng, sortable(variables[:1]) if relation == 'stat' else sortable(variables),
+                                relation, spelling)
+    container = rng.choice(DIRECT) if rng.random() < 0.8 else rng.choice(LAZY[:4])
+    channel = rng.choice(('var', 'expr'))
+    evaluate(ctx, env, variables, mapping, channel, rng.randrange(10), container, 'options', opts)
+
+
+# ---- nested loops: the statistics asked inside a loop are those of that loop's sequence
+def literal_only(o):
+    """The inner loop of a nested pair spells its calculated options literally (the caller's names sk / rv /
+    b_* belong to the outer loop)."""
+    o = dict(o)
+    if o.get('sort') and o['sort']['via'] == 'expr-name':
+        o['sort'] = dict(o['sort'], via='expr-lit')
+    if o.get('reverse_expr') and o['reverse_expr'][0] == 'name':
+        o['reverse_expr'] = ['lit', o['reverse_expr'][1]]
+    o['batch_names'] = False
+    return o
+
+
+def gen_nested(rng):
+    nvars = 1 if rng.random() < 0.7 else 2
+    names = rng.sample(NAMES, nvars)
+    sides = []
+    for side in range(2):
+        n = rng.randint(1, 6)
+        variables = []
+        for nm in names:
+            vals = gen_list(rng, n)[1]
+            variables.append([nm, enc(vals)])
+        mapping = rng.random() < 0.5
+        decoded = [(nm, dec(vals)) for nm, vals in variables]
+        o = gen_options(rng, decoded, 0.4)
+        o['where'] = 'end'
+        o['items'] = 'both' if rng.random() < 0.2 else ('dict' if mapping else 'item')
+        o['extra'] = gen_extra(rng, n)
+        if rng.random() < 0.3:
+            o['batch'] = gen_batch(rng, n)
+        if side:
+            o = literal_only(o)
+        sides.append({'variables': variables, 'mapping': mapping, 'opts': o,
+                      'container': rng.choice(DIRECT) if rng.random() < 0.7 else rng.choice(LAZY[:4])})
+    same = rng.random() < 0.15
+    if same:
+        # the inner loop runs over the very elements of the outer one (own container, own options)
+        a, b = sides
+        b['variables'] = a['variables']
+        if a['mapping'] != b['mapping']:
+            a['opts']['items'] = 'both'
+        b['opts']['items'] = a['opts']['items']
+        b['opts']['extra'] = a['opts']['extra']
+        if b['opts'].get('sort'):
+            b['opts'].pop('sort')       # drawn for other data (the comparison function may not fit)
+    return {'names': names, 'outer': sides[0], 'inner': sides[1], 'channel': rng.choice(('var', 'expr')),
+            'rot': rng.randrange(10), 'pre': rng.random() < 0.5, 'same': same}
+
+
+def nested_case(ctx, env, nd, origin='nested'):
+    names = tuple(nd['names'])
+    channel, rot = nd['channel'], nd['rot']
+    a, b = nd['outer'], nd['inner']
+    o_a, o_b = full_opts(a['opts']), full_opts(b['opts'])
+    vars_a = [(nm, dec(vals)) for nm, vals in a['variables']]
+    vars_b = [(nm, dec(vals)) for nm, vals in b['variables']]
+    models_a = {nm: model(vals) for nm, vals in vars_a}
+    models_b = {nm: model(vals) for nm, vals in vars_b}
+    desc = ('nested', repr(nd))
+    case = {'nested': nd, 'origin': origin}
+    ctx.case(desc, any(m['n'] >= 2 for m in list(models_a.values()) + list(models_b.values())))
+    pre = nd.get('pre', True)
+    src, slots = nested_source(channel, rot, names, a['mapping'], o_a, b['mapping'], o_b, pre)
+    label = ', nested loops %s over %s' % (tag_head(a['mapping'], names, o_a),
+                                           tag_head(b['mapping'], names, o_b, 'seq2'))
+    items_a = make_items(vars_a, o_a['items'], o_a['extra'])
+    items_b = list(items_a) if nd.get('same') else make_items(vars_b, o_b['items'], o_b['extra'])
+    seq_a = make_container(a['container'], items_a)
+    seq_b = make_container(b['container'], items_b)
+    uses_mv = any(v is MISSING for _, vals in vars_a + vars_b for v in vals)
+    kw = render_kw(o_a)
+    kw.update(render_kw(o_b))
+    kw['seq2'] = seq_b
+    encd = [a['variables'], b['variables']]
+    try:
+        groups = env.render(env.compile(src), slots, channel, seq_a, uses_mv, kw)
+    except Unparseable as e:
+        ctx.violation('unparseable output / record: %s%s' % (e, label), case, key='parse_' + digest(desc))
+        return
+    except Exception as e:
+        both = dict(('outer ' + k, v) for k, v in models_a.items())
+        both.update(('inner ' + k, v) for k, v in models_b.items())
+        render_error(ctx, case, desc, e, encd, both, label)
+        return
+    dispatch_tables(ctx, env)
+    blocks = groups[0]
+    if len(blocks) != 2 + pre:
+        ctx.violation('the statistics were emitted %d times, expected %sinner / outer%s'
+                      % (len(blocks), 'outer / ' if pre else '', label), case, key='blocks_' + digest(desc))
+        return
+    ctx.count('nested:renders compared')
+    ctx.count('nested:emissions judged', len(blocks))
+    ctx.count('nested:outer statistics first asked %s the inner loop' % ('before' if pre else 'after'))
+    if nd.get('same'):
+        ctx.count('nested:both loops over the same elements')
+    ctx.table('nested mapping flags (outer/inner)', '%s/%s' % ('mapping' if a['mapping'] else 'attributes',
+                                                               'mapping' if b['mapping'] else 'attributes'))
+    ctx.table('first-accessed statistic', slots[0][0])
+    option_tables(ctx, o_a, a['mapping'], names, o_a['items'], 'nested (outer)')
+    option_tables(ctx, o_b, b['mapping'], names, o_b['items'], 'nested (inner)')
+    if flag_set(o_a, a['mapping']) != flag_set(o_b, b['mapping']):
+        ctx.count('nested:the two loops carry different option subsets')
+    clean = True
+    if pre:
+        clean = judge_blocks(ctx, case, desc, [blocks[0]], vars_a, models_a, channel, a['mapping'],
+                             label + ', outer loop before the inner one')
+    clean = judge_blocks(ctx, case, desc, [blocks[-2]], vars_b, models_b, channel, b['mapping'],
+                         label + ', inner loop') and clean
+    clean = judge_blocks(ctx, case, desc, [blocks[-1]], vars_a, models_a, channel, a['mapping'],
+                         label + ', outer loop after the inner one') and clean
+    if clean and 'nested' not in env.samples:
+        env.samples['nested'] = 1
+        ctx.sample({'nested': nd, 'verdict': 'outer / inner / outer emissions agreed with the model of their '
+                                             'own sequence'})
 
 
 # ---------------------------------------------------------------- generators
@@ -1202,6 +1724,20 @@ def run(ctx, spec):
         ctx.count('shape:lists seeded')
         shape_case(ctx, env, rng, gen_variables(rng, maxvars=3, p_more=0.5))
 
+    # ---- options: the full grid of option subsets x sort key / spelling x reversal x batch
+    for i, point in enumerate(option_grid()):
+        if i % ctx.nshards != ctx.shard:
+            continue
+        ctx.count('option:grid points')
+        for data, plain in OPTION_DATA[ctx.tier]:
+            ctx.count('option:grid renders requested')
+            option_case(ctx, env, rng, point, data, plain)
+
+    # ---- nested loops over two sequences with the same variable names
+    for i in range(NESTED[ctx.tier] // ctx.nshards):
+        ctx.count('nested:pairs generated')
+        nested_case(ctx, env, gen_nested(rng))
+
     # ---- histories: one container object, changed in place between the renders
     for i, (vals, pos, v) in enumerate(exhaustive_histories(ctx.tier)):
         if i % ctx.nshards != ctx.shard:
@@ -1266,7 +1802,13 @@ def finish(agg):
               'history:renders compared', 'history:renders after an in-place change',
               'history:renders through an already used template',
               'history:renders through a newly compiled template',
-              'history:two dtml-in tags in one template with a change in between'):
+              'history:two dtml-in tags in one template with a change in between',
+              'history:renders with sort / reverse options after the first one',
+              'option:attribute order permuted', 'option:loop with an else continuation',
+              'nested:renders compared', 'nested:the two loops carry different option subsets',
+              'nested:outer statistics first asked before the inner loop',
+              'nested:outer statistics first asked after the inner loop',
+              'nested:both loops over the same elements'):
         if not c.get(k):
             inc.append('never evaluated: ' + k)
     if not t.get('seeded kind', {}).get('const-float'):
@@ -1283,6 +1825,45 @@ def finish(agg):
         for k in keys:
             if not t.get(name, {}).get(k):
                 inc.append('%s never evaluated: %s' % (name, k))
+    # -- the option dimension: every subset, over the element type that makes the subset matter, every
+    #    sort key relation x direction spelling x reversal, every way of asking for sort / reversal
+    ngrid = count_option_grid()
+    if c.get('option:grid points', 0) != ngrid:
+        inc.append('option grid incomplete: %s of %d points' % (c.get('option:grid points'), ngrid))
+    for part in ('options', 'shape', 'history', 'nested (outer)', 'nested (inner)'):
+        if not t.get('option part', {}).get(part):
+            inc.append('option subsets never compared in part: ' + part)
+    for bits in itertools.product((False, True), repeat=len(FLAG_NAMES)):
+        sub = '+'.join(f for f, b in zip(FLAG_NAMES, bits) if b) or '(none)'
+        kind = 'dict' if bits[0] else 'item'
+        if not t.get('option subset x element type', {}).get('%s | %s' % (sub, kind)):
+            inc.append('option subset never compared over %s elements: %s' % (kind, sub))
+    alt = ('x/nocase', 'x/nocase/desc', 'x/mycmp', 'x/mycmp/desc')
+    for rel, spellings in (('stat', ('x', 'x/cmp', 'x/cmp/asc', 'x/cmp/desc') + alt),
+                           ('other', ('x', 'x/cmp/desc')), ('multi', ('x', 'x/cmp/desc'))):
+        for sp in spellings:
+            for rv in ('reversed', 'not reversed'):
+                k = '%s | %s | %s' % (rel, sp, rv)
+                if not t.get('option sort key x spelling x reversal', {}).get(k):
+                    inc.append('sort key / spelling / reversal never compared: ' + k)
+    for rel in SORT_RELATIONS:
+        for fl, rx in GRID_REVERSALS:
+            k = '%s | %s' % (rel, reversal_label(full_opts({'reverse': fl, 'reverse_expr': rx})))
+            if not t.get('option sort key x reversal kind', {}).get(k):
+                inc.append('sort key x reversal kind never compared: ' + k)
+    for via in SORT_VIAS:
+        if not t.get('option sort given through', {}).get(via):
+            inc.append('sort specification never given through: ' + via)
+    multi = t.get('option multi-key sort', {})
+    for first in ('stat', 'other'):
+        if not any(k.startswith(first + ' ,') for k in multi):
+            inc.append('multi-key sort never compared with the first key being: ' + first)
+    if os.environ.get('VERIF_C16_TABLES'):         # development aid: the coverage tables go to the evidence only
+        for name in sorted(t):
+            if name.startswith(os.environ['VERIF_C16_TABLES']):
+                print('TABLE %s' % name)
+                for k in sorted(t[name]):
+                    print('   %-70s %d' % (k, t[name][k]))
     nexh = sum(len(d) ** L for d in (DOM_NUM, DOM_STR, DOM_STR2) for L in range(1, EXH_LEN[tier] + 1))
     if c.get('lists:exhaustive', 0) != nexh:
         inc.append('exhaustive part incomplete: %s of %d lists' % (c.get('lists:exhaustive'), nexh))
@@ -1313,6 +1894,9 @@ def replay(ctx, rep):
     env.install()
     if 'history' in c:
         History(ctx, env, c['history']).run(c.get('origin', 'replay'))
+        return
+    if 'nested' in c:
+        nested_case(ctx, env, c['nested'], c.get('origin', 'replay'))
         return
     variables = [(nm, dec(vals)) for nm, vals in c['variables']]
     evaluate(ctx, env, variables, c['mapping'], c['channel'], c['rot'],
